@@ -50,6 +50,7 @@ type Config struct {
 	Early     bool   `json:"early_close,omitempty"`       // Close right after the last Write returned, without waiting for quiescence
 	NilAlert  bool   `json:"nil_alerter,omitempty"`       // NewWriter(w, size, poll, nil)
 	BigCap    bool   `json:"big_cap,omitempty"`           // producers write from a reused buffer of capacity 128 KiB
+	LateWrite bool   `json:"late_write,omitempty"`        // writer "blocks" only: Close is called (and hangs behind the stuck consumer), then one more Write arrives: it returns like every other
 	Errs      string `json:"writer_errors,omitempty"`     // what the wrapped writer returns: "" (len, nil) | zero: (0, err) on every 2nd call | partial: (len/2, err) on every 2nd call | closed: an error wrapping os.ErrClosed on the 2nd call | temporary: a Temporary() error from the 2nd call on
 	TwoClose  bool   `json:"two_closers,omitempty"`       // a second thread calls Close concurrently (deferred Close + Fatal's Close)
 	Reentrant bool   `json:"reentrant_alerter,omitempty"` // the alerter logs through the same diode.Writer (it runs on the consumer)
@@ -80,6 +81,9 @@ func (c Config) String() string {
 	}
 	if c.LongPoll {
 		m += " poll=300ms"
+	}
+	if c.LateWrite {
+		m += " late-write"
 	}
 	return fmt.Sprintf("P%d W%d size%d %s writer=%s", c.P, c.W, c.Size, m, c.Writer)
 }
@@ -115,6 +119,7 @@ type result struct {
 	quiescentSeen                      bool
 	qDelivered                         int
 	qReported                          int
+	lateStarted, lateReturned          bool
 	closeReturned                      bool
 	close2Started, close2Returned      bool
 	c2Delivered, c2Reported, c2Written int
@@ -284,6 +289,19 @@ func runOnce(cfg Config, ch vsched.Chooser, keepTrace bool) *result {
 		vsched.Block("join", func() bool { return done == cfg.P })
 		if cfg.Writer == "blocks" {
 			// producers all returned although the consumer is stuck inside the wrapped writer
+			if cfg.LateWrite {
+				vsched.GoNamed("closer-stuck", func() { dw.Close() }) // never returns: the consumer never does
+				for i := 0; i < 6; i++ {
+					vsched.Yield("let-close-start")
+				}
+				late := []byte("late|after Close was called")
+				sent[string(late)] = true
+				r.lateStarted = true
+				vsched.Record("write-start", 99, 0, true)
+				dw.Write(late)
+				vsched.Record("write-end", 99, 0, true)
+				r.lateReturned = true
+			}
 			return
 		}
 		if !cfg.Early {
@@ -429,6 +447,8 @@ func judge(cfg Config, r *result) verdict {
 		switch {
 		case r.producersDone != cfg.P && (s.Deadlock || s.StepLimit):
 			v.msg = fmt.Sprintf("only %d of %d producers returned from Write (deadlock=%v, step bound hit=%v)", r.producersDone, cfg.P, s.Deadlock, s.StepLimit)
+		case r.lateStarted && !r.lateReturned:
+			v.msg = "a Write issued while Close was pending behind a blocked wrapped writer did not return"
 		case r.unknown != "":
 			v.msg = fmt.Sprintf("wrapped writer received %q, which is not the argument of any Write", r.unknown)
 		case r.mutated:
@@ -637,6 +657,7 @@ func genConfig(rt *rapid.T, small bool) Config {
 	c.Early = rapid.Bool().Draw(rt, "early") // for C10 too: Close racing the consumer must not change what is delivered, or how
 	c.NilAlert = rapid.IntRange(0, 7).Draw(rt, "nilalert") == 0
 	c.BigCap = prop == "C10" && rapid.IntRange(0, 5).Draw(rt, "bigcap") == 0
+	c.LateWrite = c.Writer == "blocks" && rapid.Bool().Draw(rt, "latewrite")
 	if c.Writer != "blocks" && rapid.IntRange(0, 3).Draw(rt, "errs") == 0 {
 		c.Errs = rapid.SampledFrom([]string{"zero", "partial", "closed", "temporary"}).Draw(rt, "errkind")
 	}
@@ -739,6 +760,7 @@ func dfsConfigs() []struct {
 		for i := 0; i < n && i < 4; i++ {
 			c := out[i]
 			c.Cfg.Writer = "blocks"
+			c.Cfg.LateWrite = i%2 == 1
 			out = append(out, c)
 		}
 	}
